@@ -61,7 +61,7 @@ def handle (op : String) (args : List String) : Option String :=
   | "c18.rr" => do
     let ((k, m), _) ← (do let k ← nat; let m ← nat; pure (k, m)).run args
     if k == 0 then (if m == 0 then pure "ok 0" else pure "panic")
-    else pure ("ok " ++ showNats (rrSeq k m 0))
+    else pure ("ok " ++ showNats (ctSeq k m 0))
   | "c18.resolver" => do
     let ((k, m), _) ← (do let k ← nat; let m ← nat; pure (k, m)).run args
     if k == 0 then (if m == 0 then pure "ok 0" else pure "panic")
